@@ -160,5 +160,5 @@ def run(rep, prop="C09"):
     try:
         return prove(rep, nmfu, Program(nmfu, common.repo_source()), prop)
     except (Unsupported, NeedFork, KeyError, AttributeError) as e:
-        rep.undecided_ob(f"{prop}/pyvc/{FNQ}/engine", f"outside the modelled Python subset: {type(e).__name__}: {e}")
+        rep.unavailable(f"{prop}/pyvc/{FNQ}/engine", f"outside the modelled Python subset: {type(e).__name__}: {e}")
         return 0
